@@ -45,9 +45,11 @@ def do_replay(mod, path):
     with open(path) as f:
         rec = json.load(f)
     acc = Acc()
-    if rec.get('task') and os.environ.get('VERIF_REPLAY_TASK'):
+    if isinstance(rec.get('case'), dict) and rec['case'].get('kind') == 'task':
+        engine.call_task(mod, rec['case']['task'][0], rec['case']['task'][1], acc)
+    elif rec.get('task') and os.environ.get('VERIF_REPLAY_TASK'):
         # history-dependent violation: re-run the whole worker task it arose in (deterministic given its argument)
-        getattr(mod, rec['task'][0])(rec['task'][1], acc)
+        engine.call_task(mod, rec['task'][0], rec['task'][1], acc)
     else:
         mod.replay(rec['case'], acc)
     keys = sorted(acc.viol)
